@@ -23,6 +23,7 @@ import (
 var (
 	sandbox   string // <sandbox>/parent/root is the served root
 	root      string
+	root2     string            // a second served root (another mount): for the first mount its files are "outside the root"
 	secrets   []string          // markers that must never appear in a response
 	inRoot    map[string]string // relative path below root -> content
 	secretAbs string
@@ -69,6 +70,10 @@ func build() {
 	write(secretAbs, m3)
 	write(filepath.Join(parent, "sibling", "leak.js"), m4)
 	write(filepath.Join(parent, "rootx.css"), m4) // shares the root's name as a prefix
+	root2 = filepath.Join(parent, "second")
+	for _, f := range []string{"a.css", "b.js", "f1.txt", "index.html", "sub/c.css", "only2.js"} {
+		write(filepath.Join(root2, filepath.FromSlash(f)), "ROOT2FILE<"+f+">"+tag)
+	}
 	inRoot = map[string]string{}
 	for _, f := range []string{"a.css", "b.js", "index.html", "page.html", "my file.css", "dots..css", "noext", "sub/c.css", "sub/index.html", "sub/deep/d.js", "sub/deep/e.txt", "x.css.bak", "up..js",
 		"lib.js/index.html", "lib.js/inner.css", "style.css/readme.txt", "sub/chart.js/index.html", // directories named like files
@@ -79,11 +84,14 @@ func build() {
 }
 
 type setup struct {
-	kind     string // StaticDir, StaticFS, StaticFiles, StaticFile
-	prefix   string
-	exts     string
-	encoded  bool
-	relative bool // the root is given relative to the working directory ("../../sandbox/.../root")
+	kind       string // StaticDir, StaticFS, StaticFiles, StaticFile
+	prefix     string
+	exts       string
+	encoded    bool
+	relative   bool   // the root is given relative to the working directory ("../../sandbox/.../root")
+	second     string // non-empty: a second mount (StaticDir or StaticFiles) of root2 under this prefix
+	cacheCap   int    // > 0: route caching with this capacity
+	globalFile bool   // a global path var named "file" is registered (SetGlobalVar) - the handlers' own regex must win
 }
 
 // relRoot is the root relative to the working directory; decoys with secret markers sit where a sloppy resolution of
@@ -127,7 +135,7 @@ func buildRelative() {
 var decoys []string
 
 func (s setup) String() string {
-	return fmt.Sprintf("%s(prefix=%q exts=%q relativeRoot=%v) UseEncodedPath=%v", s.kind, s.prefix, s.exts, s.relative, s.encoded)
+	return fmt.Sprintf("%s(prefix=%q exts=%q relativeRoot=%v) UseEncodedPath=%v secondMount=%q cache=%d globalVar(file)=%v", s.kind, s.prefix, s.exts, s.relative, s.encoded, s.second, s.cacheCap, s.globalFile)
 }
 
 func (s setup) router() *rux.Router {
@@ -135,7 +143,17 @@ func (s setup) router() *rux.Router {
 	if s.encoded {
 		opts = append(opts, rux.UseEncodedPath)
 	}
+	if s.cacheCap > 0 {
+		opts = append(opts, rux.CachingWithNum(uint16(s.cacheCap)))
+	}
 	r := rux.New(opts...)
+	if s.second != "" {
+		if strings.HasSuffix(s.second, "files") {
+			r.StaticFiles(s.second, root2, "css|js|txt")
+		} else {
+			r.StaticDir(s.second, root2)
+		}
+	}
 	dir := root
 	if s.relative && relRoot != "" {
 		dir = relRoot
@@ -154,6 +172,7 @@ func (s setup) router() *rux.Router {
 }
 
 var rootMarker = regexp.MustCompile(`ROOTFILE<([^>]*)>`)
+var root2Marker = regexp.MustCompile(`ROOT2FILE<([^>]*)>`)
 
 // check applies the validity predicate to one response; naive reports whether joining the path naively to the root
 // would have left it (classification only).
@@ -164,6 +183,23 @@ func check(s setup, u *url.URL, rec *httptest.ResponseRecorder) string {
 		if strings.Contains(all, m) {
 			return fmt.Sprintf("response contains content from outside the root (%s): %d %q", m, rec.Code, body)
 		}
+	}
+	// a mount must not serve the files of the other mount's root
+	underSecond := s.second != "" && strings.HasPrefix(model.Normalize(u.Path, false), s.second+"/")
+	if underSecond {
+		if rootMarker.MatchString(body) {
+			return fmt.Sprintf("the mount %q of the second root served a file of the first root: %q", s.second, body)
+		}
+		if m := root2Marker.FindStringSubmatch(body); m != nil && (rec.Code == 200 || rec.Code == 206) {
+			rel := strings.TrimPrefix(model.Normalize(u.Path, false), s.second+"/")
+			if want := strings.TrimPrefix(path.Clean("/"+rel), "/"); m[1] != want && m[1] != path.Join(want, "index.html") {
+				return fmt.Sprintf("request %q under the second mount served the bytes of %q", u.Path, m[1])
+			}
+		}
+		return ""
+	}
+	if root2Marker.MatchString(body) {
+		return fmt.Sprintf("a file of the second root was served through the first mount: %q", body)
 	}
 	ms := rootMarker.FindAllStringSubmatch(body, -1)
 	if len(ms) == 0 {
@@ -248,8 +284,19 @@ func prop(t *rapid.T) {
 	if s.kind == "StaticFile" {
 		s.prefix += "/one.css"
 	}
+	if rapid.IntRange(0, 2).Draw(t, "secondMount") == 0 {
+		s.second = rapid.SampledFrom([]string{"/pub", "/pubfiles"}).Draw(t, "secondPrefix")
+		s.cacheCap = rapid.IntRange(0, 2).Draw(t, "cacheCap")
+	}
+	if rapid.IntRange(0, 3).Draw(t, "globalVarFile") == 0 {
+		// documented API: a global path var; a variable with its own regex ({file:...}) must keep its own
+		s.globalFile = true
+		rux.SetGlobalVar("file", rapid.SampledFrom([]string{`[^/]+`, `.+`, `.*`}).Draw(t, "globalRegex"))
+		defer delete(rux.GetGlobalVars(), "file")
+	}
 	r := s.router()
 	n := rapid.IntRange(1, 8).Draw(t, "nreq")
+	var earlier []string
 	for i := 0; i < n; i++ {
 		segs := rapid.SliceOfN(segGen, 0, 6).Draw(t, "segs")
 		if rapid.IntRange(0, 7).Draw(t, "absSecret") == 0 {
@@ -266,6 +313,19 @@ func prop(t *rapid.T) {
 		raw := pfx + "/" + tail
 		if s.kind == "StaticFile" && rapid.Bool().Draw(t, "exact") {
 			raw = s.prefix
+		}
+		if s.second != "" {
+			switch rapid.IntRange(0, 3).Draw(t, "mountChoice") {
+			case 0: // a file of the second mount
+				raw = s.second + "/" + rapid.SampledFrom([]string{"a.css", "b.js", "f1.txt", "sub/c.css", "only2.js", "../root/a.css"}).Draw(t, "file2")
+			case 1: // a plain file of the first mount
+				raw = s.prefix + "/" + rapid.SampledFrom([]string{"a.css", "b.js", "sub/c.css", "page.html"}).Draw(t, "file1")
+			case 2: // again an earlier path (the cache may answer)
+				if len(earlier) > 0 {
+					raw = rapid.SampledFrom(earlier).Draw(t, "again")
+				}
+			}
+			earlier = append(earlier, raw)
 		}
 		var u *url.URL
 		if rapid.Bool().Draw(t, "parsed") {
